@@ -49,9 +49,10 @@ UNIT = UnitV()
 
 class IntV(V):
     kind = "int"
-    __slots__ = ("ty", "w", "signed", "bits", "lo", "hi", "aff", "exact", "vid", "lineage", "pred")
+    __slots__ = ("ty", "w", "signed", "bits", "lo", "hi", "aff", "exact", "vid", "lineage", "pred", "full", "excl")
 
-    def __init__(self, ty, bits, lo, hi, aff=None, exact=False, lineage=frozenset(), pred=None, vid=None):
+    def __init__(self, ty, bits, lo, hi, aff=None, exact=False, lineage=frozenset(), pred=None, vid=None, full=False,
+                 excl=frozenset()):
         it = M.int_type(ty)
         if it is None:
             raise Unsupported("IntV of type " + ty)
@@ -66,9 +67,18 @@ class IntV(V):
         self.vid = vid if vid is not None else next(_vid)
         self.lineage = lineage | {self.vid}
         self.pred = pred
+        self.full = full and exact  # every value of [lo,hi] is attained (up to excluded points)
+        self.excl = frozenset(x for x in excl if self.lo <= x <= self.hi) if excl else frozenset()
+        while self.lo in self.excl and self.lo < self.hi:
+            self.lo += 1
+        while self.hi in self.excl and self.hi > self.lo:
+            self.hi -= 1
         # reduce: known bits <-> interval
         if self.lo == self.hi:
-            self.bits = bits_const(self.lo, self.w)
+            self.full = True
+            # keep provenance bits (copies of input atoms) of a value refined to a single point
+            if not any(b not in (0, 1) and b[0] in "cn" for b in self.bits):
+                self.bits = bits_const(self.lo, self.w)
             self.aff = Lin(self.lo)
             self.exact = True
         else:
@@ -103,7 +113,7 @@ class IntV(V):
         tlo, thi = M.type_range(ty)
         lo = tlo if lo is None else lo
         hi = thi if hi is None else hi
-        return IntV(ty, bits_atom(name, w), lo, hi, Lin.atom(name), True)
+        return IntV(ty, bits_atom(name, w), lo, hi, Lin.atom(name), True, full=True)
 
     @staticmethod
     def top(ty, deps=frozenset(), lo=None, hi=None, exact=False):
@@ -114,12 +124,18 @@ class IntV(V):
     def is_const(self):
         return self.lo == self.hi
 
+    def norm(self):
+        """operand view: a single-point value as a plain constant (provenance bits dropped)"""
+        if self.lo == self.hi and any(b not in (0, 1) for b in self.bits):
+            return IntV(self.ty, bits_const(self.lo, self.w), self.lo, self.lo, Lin(self.lo), True, self.lineage, self.pred, full=True)
+        return self
+
     def deps(self):
         return bits_all_deps(self.bits)
 
     def with_(self, **kw):
         d = dict(ty=self.ty, bits=self.bits, lo=self.lo, hi=self.hi, aff=self.aff, exact=self.exact,
-                 lineage=self.lineage, pred=self.pred)
+                 lineage=self.lineage, pred=self.pred, full=self.full, excl=self.excl)
         d.update(kw)
         return IntV(**d)
 
@@ -272,6 +288,7 @@ def vjoin(a, b, cd, widen=False):
             return a
         bits = tuple(bjoin(x, y, cd) for x, y in zip(a.bits, b.bits))
         lo, hi = min(a.lo, b.lo), max(a.hi, b.hi)
+        excl_j = frozenset(x for x in (a.excl | b.excl) if (x in a.excl or not (a.lo <= x <= a.hi)) and (x in b.excl or not (b.lo <= x <= b.hi)))
         if widen:
             tlo, thi = M.type_range(a.ty)
             if b.lo < a.lo:
@@ -279,7 +296,7 @@ def vjoin(a, b, cd, widen=False):
             if b.hi > a.hi:
                 hi = thi
         aff = a.aff if (a.aff is not None and a.aff == b.aff) else None
-        return IntV(a.ty, bits, lo, hi, aff, False, a.lineage | b.lineage)
+        return IntV(a.ty, bits, lo, hi, aff, False, a.lineage | b.lineage, excl=excl_j)
     if a.kind == "ref":
         return a if a.loc == b.loc else TopV("&", cd)
     if a.kind == "agg":
@@ -647,6 +664,10 @@ class Interp:
         return r
 
     def _binop(self, st, op, a, b, dest_ty):
+        if a.kind == "int":
+            a = a.norm()
+        if b.kind == "int":
+            b = b.norm()
         if a.kind != "int" or b.kind != "int":
             d = a.deps() | b.deps()
             if op in ("Eq", "Ne", "Lt", "Le", "Gt", "Ge"):
@@ -697,16 +718,18 @@ class Interp:
                 if bits is None:
                     res = IntV.const(ty, rlo)
                 else:
-                    res = IntV(ty, bits, rlo, rhi, aff, both_exact and not ovf_possible, lin)
+                    res = IntV(ty, bits, rlo, rhi, aff, both_exact and not ovf_possible, lin,
+                               full=(base in ("Add", "Sub") and ((b.is_const() and a.full) or (a.is_const() and b.full))))
                 flag = IntV("bool", bits_dep_all(1, a.deps() | b.deps()) if ovf_possible and not ovf_certain else bits_const(1 if ovf_certain else 0, 1),
                             1 if ovf_certain else 0, 1 if ovf_possible else 0,
                             pred=("ovf", base, a, b, lo, hi, both_exact))
                 return AggV("tuple", [res, flag])
             # wrapping semantics
+            fullr = base in ("Add", "Sub") and ((b.is_const() and a.full) or (a.is_const() and b.full))
             if not ovf_possible:
                 if bits is None:
                     return IntV.const(ty, lo)
-                return IntV(ty, bits, lo, hi, aff, both_exact, lin)
+                return IntV(ty, bits, lo, hi, aff, both_exact, lin, full=fullr)
             if bits is None:
                 return IntV.const(ty, (lo - tlo) % (1 << w) + tlo)
             aff2 = None
@@ -716,6 +739,9 @@ class Interp:
         if op in ("BitAnd", "BitOr", "BitXor"):
             f = {"BitAnd": band, "BitOr": bor, "BitXor": bxor}[op]
             bits = tuple(f(x, y) for x, y in zip(a.bits, b.bits))
+            if ty == "bool" and op in ("BitAnd", "BitOr") and not (a.is_const() or b.is_const()):
+                r = IntV("bool", bits, 0, 1, None, False, lin, pred=("and" if op == "BitAnd" else "or", a, b))
+                return r
             aff = None
             lo, hi = tlo, thi
             ex = False
@@ -746,6 +772,8 @@ class Interp:
                         aff = a.aff.add(b.aff)
                         lo, hi = a.lo + b.lo, min(a.hi + b.hi, thi)
                         ex = both_exact
+                        if both_exact and a.full and b.full and hi - lo + 1 == (a.hi - a.lo + 1) * (b.hi - b.lo + 1):
+                            return IntV(ty, bits, lo, hi, aff, ex, lin, full=True)
             return IntV(ty, bits, lo, hi, aff, ex, lin)
         if op in ("Shl", "Shr"):
             if b.is_const():
@@ -786,6 +814,8 @@ class Interp:
                     k = m.bit_length() - 1
                     bits = a.bits[:k] + (0,) * (w - k)
                 return IntV(ty, bits, 0, m - 1, aff, a.exact and (a.hi - a.lo + 1 >= m), lin)
+            if 0 in b.excl and b.lo <= 0 <= b.hi:
+                pass  # divisor known non-zero; ranges below stay conservative
             if op == "Rem" and b.lo > 0 and a.lo >= 0:
                 return IntV(ty, bits_dep_all(w, d), 0, min(a.hi, b.hi - 1), None, False, lin)
             if op == "Div" and a.lo >= 0 and b.lo > 0:
@@ -793,19 +823,20 @@ class Interp:
             if op == "Div" and b.is_const() and b.lo != 0:
                 c = [int(a.lo / b.lo), int(a.hi / b.lo)]
                 return IntV(ty, bits_dep_all(w, d), min(c), max(c), None, False, lin)
-            if op == "Rem" and b.is_const() and b.lo != 0:
-                m = abs(b.lo) - 1
-                return IntV(ty, bits_dep_all(w, d), -m if a.lo < 0 else 0, m if a.hi > 0 else 0, None, False, lin)
+            if op == "Rem":
+                m = max(abs(b.lo), abs(b.hi)) - 1
+                if m >= 0:
+                    return IntV(ty, bits_dep_all(w, d), max(-m, a.lo) if a.lo < 0 else 0, min(m, a.hi) if a.hi > 0 else 0, None, False, lin)
             return IntV.top(ty, d)
         if op in ("Eq", "Ne", "Lt", "Le", "Gt", "Ge"):
             res = None
             if op == "Eq":
-                if a.hi < b.lo or b.hi < a.lo:
+                if a.hi < b.lo or b.hi < a.lo or (b.is_const() and b.lo in a.excl) or (a.is_const() and a.lo in b.excl):
                     res = 0
                 elif a.is_const() and b.is_const():
                     res = 1
             elif op == "Ne":
-                if a.hi < b.lo or b.hi < a.lo:
+                if a.hi < b.lo or b.hi < a.lo or (b.is_const() and b.lo in a.excl) or (a.is_const() and a.lo in b.excl):
                     res = 1
                 elif a.is_const() and b.is_const():
                     res = 0
@@ -872,6 +903,7 @@ class Interp:
     def unop(self, op, a):
         if a.kind != "int":
             return TopV("?", a.deps())
+        a = a.norm()
         if op == "Not":
             bits = tuple(bnot(x) for x in a.bits)
             if a.ty == "bool":
@@ -896,6 +928,7 @@ class Interp:
                 return IntV.top(ty, a.deps())
             return TopV(ty, a.deps())
         w, s = it
+        a = a.norm()
         # bits
         if w <= a.w:
             bits = a.bits[:w]
@@ -904,20 +937,26 @@ class Interp:
             bits = a.bits + (fill,) * (w - a.w)
         tlo, thi = M.type_range(ty)
         if a.lo >= tlo and a.hi <= thi:
-            return IntV(ty, bits, a.lo, a.hi, a.aff, a.exact, a.lineage)
+            return IntV(ty, bits, a.lo, a.hi, a.aff, a.exact, a.lineage, full=a.full, excl=a.excl)
         # wraps
         aff = None
         if a.aff is not None:
             aff = a.aff.sx(w) if s else a.aff.mod(1 << w)
         span = a.hi - a.lo + 1
         if span >= (1 << w):
-            return IntV(ty, bits, tlo, thi, aff, a.exact, a.lineage)
+            return IntV(ty, bits, tlo, thi, aff, a.exact, a.lineage, full=a.full)
         # shift the interval into the target range if it does not straddle
         m = 1 << w
         lo2 = (a.lo - tlo) % m + tlo
         hi2 = (a.hi - tlo) % m + tlo
+        wrapv = lambda x: (x - tlo) % m + tlo
+        ex2 = frozenset(wrapv(x) for x in a.excl) if w >= a.w or span < m else frozenset()
         if lo2 <= hi2:
-            return IntV(ty, bits, lo2, hi2, aff, a.exact, a.lineage)
+            return IntV(ty, bits, lo2, hi2, aff, a.exact, a.lineage, full=a.full, excl=ex2)
+        # straddles the wrap point: whole range minus the gap (hi2, lo2)
+        gap = lo2 - hi2 - 1
+        if a.full and gap <= 4:
+            return IntV(ty, bits, tlo, thi, aff, True, a.lineage, full=True, excl=ex2 | frozenset(range(hi2 + 1, lo2)))
         return IntV(ty, bits, tlo, thi, aff, False, a.lineage)
 
     # -- rvalues ------------------------------------------------------------------------------
@@ -944,8 +983,10 @@ class Interp:
                     return self.enum_discr(a, rv[3])
                 res = self.cast_int(a, rv[3])
                 if a.kind == "int" and M.int_type(rv[3]):
-                    tlo, thi = M.type_range(rv[3])
-                    if a.lo < tlo or a.hi > thi:
+                    wt = M.int_type(rv[3])[0]
+                    fits_u = a.lo >= 0 and a.hi <= (1 << wt) - 1
+                    fits_s = a.lo >= -(1 << (wt - 1)) and a.hi <= (1 << (wt - 1)) - 1
+                    if not (fits_u or fits_s):  # information is lost in either reading of the target width
                         self.event("narrow", fn, bi, getattr(self, "cur_line", 0), val=a, ty=rv[3],
                                    from_div=bool(a.lineage & self.div_vids), open_deps=self.open_deps(st))
                 return res
@@ -1006,7 +1047,18 @@ class Interp:
             return False
         if lo2 == v.lo and hi2 == v.hi:
             return True
-        nv = IntV(v.ty, v.bits, lo2, hi2, v.aff, v.exact and exact_ok, v.lineage, v.pred, vid=v.vid)
+        nv = IntV(v.ty, v.bits, lo2, hi2, v.aff, v.exact and exact_ok, v.lineage, v.pred, vid=v.vid, full=v.full and exact_ok, excl=v.excl)
+        self.mark_refined(st, v)
+        self.replace_vid(st, v, nv)
+        return True
+
+    def refine_excl(self, st, v, point):
+        if point < v.lo or point > v.hi or point in v.excl:
+            return True
+        if v.lo == v.hi:
+            return False
+        ex = v.excl | {point} if len(v.excl) < 6 else v.excl
+        nv = IntV(v.ty, v.bits, v.lo, v.hi, v.aff, v.exact, v.lineage, v.pred, vid=v.vid, full=v.full, excl=ex)
         self.mark_refined(st, v)
         self.replace_vid(st, v, nv)
         return True
@@ -1048,18 +1100,12 @@ class Interp:
                 pass
         elif op == "Ne":
             r = True
-            if y.is_const():
-                if x.lo == y.lo:
-                    r = self.refine_range(st, x, x.lo + 1, big)
-                elif x.hi == y.lo:
-                    r = self.refine_range(st, x, -big, x.hi - 1)
-                if x.is_const() and x.lo == y.lo:
-                    r = False
+            if x.is_const() and y.is_const():
+                r = x.lo != y.lo
+            elif y.is_const():
+                r = self.refine_excl(st, x, y.lo)
             elif x.is_const():
-                if y.lo == x.lo:
-                    r = self.refine_range(st, y, y.lo + 1, big)
-                elif y.hi == x.lo:
-                    r = self.refine_range(st, y, -big, y.hi - 1)
+                r = self.refine_excl(st, y, x.lo)
         elif op == "Lt":
             r = self.refine_range(st, x, -big, y.hi - 1, ok_exact) and self.refine_range(st, y, x.lo + 1, big, ok_exact)
         elif op == "Le":
@@ -1346,11 +1392,49 @@ class Interp:
                         witness = f"{base}({a!r},{bb_!r}) -> [{lo},{hi}]"
                 elif p is not None and p[0] == "cmp":
                     _, op, x, y = p
-                    if x.exact and y.exact and (x.is_const() or y.is_const() or self._indep(st, x, y)) \
-                            and self.lineage_clean(st, x) and self.lineage_clean(st, y):
+                    if self.cmp_attainable(st, op, x, y, not expected):
                         status = "definite"
                         witness = f"{op}({x!r},{y!r}) can be {0 if expected else 1}"
+                elif p is not None and p[0] == "and" and not expected:
+                    # assert !(c1 && c2): fails iff both hold; the two tests must be about independent inputs
+                    c1, c2 = p[1], p[2]
+                    if c1.pred and c2.pred and c1.pred[0] == "cmp" and c2.pred[0] == "cmp" \
+                            and self.cmp_attainable(st, c1.pred[1], c1.pred[2], c1.pred[3], True) \
+                            and self.cmp_attainable(st, c2.pred[1], c2.pred[2], c2.pred[3], True) \
+                            and not (c1.deps() & c2.deps()):
+                        status = "definite"
+                        witness = f"{c1.pred[1]}({c1.pred[2]!r},{c1.pred[3]!r}) and {c2.pred[1]}({c2.pred[2]!r},{c2.pred[3]!r}) can hold together"
         self.event("assert", fn, b, line, akind=kind, status=status, witness=witness, vals=vals, exp=T.get("exp", False))
+
+    def cmp_attainable(self, st, op, x, y, truth):
+        """is there (soundly) an input for which `x op y` evaluates to `truth`?"""
+        if not truth:
+            op = {"Eq": "Ne", "Ne": "Eq", "Lt": "Ge", "Ge": "Lt", "Le": "Gt", "Gt": "Le"}[op]
+        if not (x.exact and y.exact and self.lineage_clean(st, x) and self.lineage_clean(st, y)):
+            return False
+        if not (x.is_const() or y.is_const() or self._indep(st, x, y)):
+            return False
+        if op == "Eq":
+            lo, hi = max(x.lo, y.lo), min(x.hi, y.hi)
+            if lo > hi:
+                return False
+            for u, v in ((x, y), (y, x)):
+                if v.is_const():
+                    if v.lo in u.excl:
+                        return False
+                    return u.full or v.lo in (u.lo, u.hi)
+            return x.full and y.full
+        if op == "Ne":
+            return not (x.is_const() and y.is_const() and x.lo == y.lo)
+        if op == "Lt":
+            return x.lo < y.hi
+        if op == "Le":
+            return x.lo <= y.hi
+        if op == "Gt":
+            return x.hi > y.lo
+        if op == "Ge":
+            return x.hi >= y.lo
+        return False
 
     def lineage_clean(self, st, v):
         """no refinement of another value derived from the same atoms happened on this path"""
